@@ -11,7 +11,7 @@ package adt
 // Vertex.Finalize. L is #S1, the open literal schema1, or the embedding
 // {#S1, c: 1}; R is #S2 or the open literal schema2.
 //
-//	schema ::= { a-decl? b-decl? ([string]: int)? (...)? }
+//	schema ::= { a-decl? b-decl? ([string]: int)? (...)? }     (... also in open literals)
 //	a-decl ::= a: <k | a?: <k | a!: <k      (k a symbolic integer in 0..3)
 //	b-decl ::= b?: int
 //	data   ::= subset of { a: n, b: 1, c: 1 }   (n a symbolic integer in 0..3)
@@ -37,9 +37,8 @@ func verifGenSchema(forceDef bool) verifSchema {
 		s.b = verifChoice(2) == 1
 	}
 	s.pattern = verifChoice(2) == 1
-	if s.def {
-		s.ellipsis = verifChoice(2) == 1
-	}
+	// "..." opens a definition; in an open literal it changes nothing (and must not)
+	s.ellipsis = verifChoice(2) == 1
 	if s.a != 0 {
 		s.k = verifSmallInt("k")
 	}
